@@ -126,6 +126,7 @@ type Config struct {
 	StallFrom        int  // step at which the stall begins
 	StallLen         int  // number of steps
 	PYields          bool // honour SimPoint()
+	PostYields       bool // an extra scheduling point right AFTER every release-type operation (Pool.Put, Unlock, RUnlock, WaitGroup.Done, Once done): another task can act on what was released before the releasing task executes its next statement
 	StepCap          int
 	Pool             PoolMode
 	GetFreshPermille int // F1
